@@ -244,6 +244,9 @@ class M:
             if getattr(self, 'tainted', False) and \
                     not o.startswith('rollback-over-resaved-blob/'):
                 o = 'rollback-over-resaved-blob/' + o
+            if getattr(self, 'proxy_tainted', False) and \
+                    not o.startswith('proxy-undo-of-uncreation/'):
+                o = 'proxy-undo-of-uncreation/' + o
             self.viol.append((o, x))
 
     def data(self):
@@ -681,6 +684,16 @@ class M:
         tids = [cand[j] for j in range(i, max(i - m, -1), -1)]
         if any(self.log.txn(tid) is None for tid in tids):
             return
+        if self.kind == 'proxy' and any(
+                r.kind == UNCREATE for tid in tids
+                for r in self.log.txn(tid).recs):
+            # known finding: the proxy finds the blobs of an undo by the
+            # *files* named after the undone transaction and their
+            # previous revision by loadBefore -- undoing a transaction
+            # that un-created a blob (i.e. redoing a creation) raises
+            # POSKeyError or, once a pack removed the un-creation's file,
+            # writes a blob record without a file
+            self.proxy_tainted = True
         A.begin()
         try:
             if len(tids) == 1:
